@@ -51,6 +51,9 @@ struct FontInfo {
     glen: Vec<u32>,
     composites: Vec<u32>,
     var_glyphs: Vec<u32>,
+    /// glyph ids grouped by the outer index (ItemVariationData subtable) of their HVAR advance mapping; one group for
+    /// an implicit (glyph id) mapping, empty without HVAR
+    hvar_groups: Vec<Vec<u32>>,
     naxes: usize,
     kf_cmap: bool,
 }
@@ -127,6 +130,24 @@ fn charmap_mappings(font: &FontRef) -> Vec<(u32, u32)> {
     m
 }
 
+fn hvar_groups(font: &FontRef, n: u32) -> Vec<Vec<u32>> {
+    let Ok(hvar) = font.hvar() else { return vec![] };
+    let mut groups: BTreeMap<u16, Vec<u32>> = BTreeMap::new();
+    match hvar.advance_width_mapping() {
+        Some(Ok(map)) => {
+            for g in 0..n {
+                if let Ok(ix) = map.get(g) {
+                    groups.entry(ix.outer).or_default().push(g);
+                }
+            }
+        }
+        _ => {
+            groups.insert(0, (0..n).collect());
+        }
+    }
+    groups.into_values().collect()
+}
+
 fn load_fonts() -> Vec<FontInfo> {
     let mut out = vec![];
     for cf in corpus::all_fonts() {
@@ -174,6 +195,7 @@ fn load_fonts() -> Vec<FontInfo> {
                 glen,
                 composites,
                 var_glyphs,
+                hvar_groups: hvar_groups(&font, n),
                 naxes,
             });
         }
@@ -381,6 +403,74 @@ fn request_strategy(fi: usize) -> BoxedStrategy<Case> {
 fn strategy() -> BoxedStrategy<Case> {
     let n = fonts().len();
     (0..n).prop_flat_map(request_strategy).boxed()
+}
+
+/// Variable fonts: small glyph sets built from the HVAR structure (unequal numbers of glyphs from different
+/// ItemVariationData subtables of the advance mapping, in both orders; without HVAR or with one subtable: 2-8 glyphs
+/// with variation data), always observed at all-axes-min, all-axes-max, all-axes-mid and single-axis extremes.
+fn hvar_strategy() -> BoxedStrategy<Case> {
+    let var: Vec<usize> = (0..fonts().len()).filter(|i| fonts()[*i].naxes > 0).collect();
+    if var.is_empty() {
+        return strategy();
+    }
+    let multi: Vec<usize> = var.iter().copied().filter(|i| fonts()[*i].hvar_groups.iter().filter(|g| !g.is_empty()).count() >= 2).collect();
+    let pick_font = if multi.is_empty() {
+        proptest::sample::select(var).boxed()
+    } else {
+        prop_oneof![3 => proptest::sample::select(multi), 1 => proptest::sample::select(var)].boxed()
+    };
+    pick_font
+        .prop_flat_map(|fi| {
+            (
+                Just(fi),
+                // (group, how many glyphs of it): 2-3 groups with independent counts => unequal in both orders
+                proptest::collection::vec((any::<u32>(), 1usize..7, proptest::collection::vec(any::<u32>(), 6)), 2..4),
+                flags_strategy(),
+                ppem_strategy(),
+                // single-axis extremes: (axis, sign)
+                proptest::collection::vec((any::<u32>(), any::<bool>()), 0..3),
+                -16384i16..=16384,
+                any::<u32>(),
+                any::<bool>(),
+            )
+        })
+        .prop_map(|(fi, picks, flags, ppems, singles, mid, pick, as_chars)| {
+            let f = &fonts()[fi];
+            let groups: Vec<&Vec<u32>> = f.hvar_groups.iter().filter(|g| !g.is_empty()).collect();
+            let mut gids: Vec<u32> = vec![];
+            if groups.len() >= 2 {
+                for (graw, k, raws) in &picks {
+                    let g = groups[idx(*graw, groups.len())];
+                    gids.extend(raws.iter().take(*k).map(|r| g[idx(*r, g.len())]));
+                }
+            } else {
+                let pool: Vec<u32> = if f.var_glyphs.is_empty() { (0..f.n).collect() } else { f.var_glyphs.clone() };
+                for (_, k, raws) in &picks {
+                    gids.extend(raws.iter().take(*k).map(|r| pool[idx(*r, pool.len())]));
+                }
+                gids.truncate(8);
+            }
+            let mut locs: Vec<Vec<i16>> = vec![vec![-16384; f.naxes], vec![16384; f.naxes], vec![mid; f.naxes], vec![8192; f.naxes], vec![-8192; f.naxes]];
+            for (araw, pos) in &singles {
+                let mut l = vec![0i16; f.naxes];
+                l[idx(*araw, f.naxes)] = if *pos { 16384 } else { -16384 };
+                locs.push(l);
+            }
+            // half of the cases request the glyphs through their characters where they have one
+            let mut chars = vec![];
+            if as_chars {
+                let mut rest = vec![];
+                for g in &gids {
+                    match f.maps.iter().find(|m| m.1 == *g) {
+                        Some(m) => chars.push(m.0),
+                        None => rest.push(*g),
+                    }
+                }
+                gids = rest;
+            }
+            Case { font: f.name.clone(), chars, gids, star_chars: false, star_gids: false, flags, ppems, locs, pick }
+        })
+        .boxed()
 }
 
 /// "subset to everything the font contains": explicit full lists or the CLI's `*`, every flag combination
@@ -728,7 +818,7 @@ fn check_pass(
     let naxes = a.font.axes().len();
     let mut locs: Vec<Vec<F2Dot14>> = vec![vec![]];
     if naxes > 0 {
-        locs.extend(c.locs.iter().take(3).map(|l| {
+        locs.extend(c.locs.iter().take(10).map(|l| {
             let mut v = coords_of(l);
             v.resize(naxes, F2Dot14::ZERO);
             v
@@ -1011,7 +1101,7 @@ fn kf_case(i: u64) -> Case {
 
 fn main() {
     let ctx = Ctx::from_args("C17");
-    ctx.set_rule("font drawn uniformly from the corpus fonts with glyf/loca/cmap/maxp/head/hhea/hmtx (TTC members included); characters = a selection of the font's own skrifa character mappings (none / one / a few scattered / a contiguous run / a fraction / every k-th / all) plus 0-3 code points from fixed ranges (mostly not in the font); glyph ids = the same selection shapes over 0..numGlyphs or over the font's composite / gvar-carrying glyphs, plus 0-3 ids >= numGlyphs; flags = any of the 16 combinations of NO_HINTING, RETAIN_GIDS, SET_OVERLAPS_FLAG, NOTDEF_OUTLINE, with one unimplemented flag added in a quarter of the cases; 1-2 ppem values and (variable fonts) 1-2 normalized locations; stage `everything` requests the whole font (explicit lists or `*`). Non-trivial: the request drops at least one glyph and keeps at least one composite glyph or glyph with gvar data; distinct by hash of (font, request, flags).");
+    ctx.set_rule("font drawn uniformly from the corpus fonts with glyf/loca/cmap/maxp/head/hhea/hmtx (TTC members included); characters = a selection of the font's own skrifa character mappings (none / one / a few scattered / a contiguous run / a fraction / every k-th / all) plus 0-3 code points from fixed ranges (mostly not in the font); glyph ids = the same selection shapes over 0..numGlyphs or over the font's composite / gvar-carrying glyphs, plus 0-3 ids >= numGlyphs; flags = any of the 16 combinations of NO_HINTING, RETAIN_GIDS, SET_OVERLAPS_FLAG, NOTDEF_OUTLINE, with one unimplemented flag added in a quarter of the cases; 1-2 ppem values and (variable fonts) 1-2 normalized locations; stage `hvar` (variable fonts): 2-18 glyphs taken in unequal numbers from different ItemVariationData subtables of the HVAR advance mapping (any 2-8 glyphs with gvar data when HVAR has one subtable or is absent), observed at all-axes-min / max / mid / +-0.5 and single-axis extremes; stage `everything` requests the whole font (explicit lists or `*`). Non-trivial: the request drops at least one glyph and keeps at least one composite glyph or glyph with gvar data; distinct by hash of (font, request, flags).");
     ctx.assume("skrifa's charmap, unhinted scaler and glyph metrics are the observation on both sides (their correctness is C03/C08/C12's business); the component closure comes from a glyf/loca parser in the harness; the old->new glyph renumbering is read from Plan::verif_glyph_map (hook H3)");
     if fonts().is_empty() {
         ctx.infra_error("no eligible corpus font".into());
@@ -1020,10 +1110,11 @@ fn main() {
         "fonts",
         serde_json::json!(fonts()
             .iter()
-            .map(|f| serde_json::json!({"name": f.name, "glyphs": f.n, "chars": f.maps.len(), "composites": f.composites.len(), "gvar_glyphs": f.var_glyphs.len(), "axes": f.naxes}))
+            .map(|f| serde_json::json!({"name": f.name, "glyphs": f.n, "chars": f.maps.len(), "composites": f.composites.len(), "gvar_glyphs": f.var_glyphs.len(), "axes": f.naxes, "hvar_adv_subtables": f.hvar_groups.iter().filter(|g| !g.is_empty()).count()}))
             .collect::<Vec<_>>()),
     );
     ctx.prop_stage("request", Isolation::Threads, ctx.n(14_000, 120_000), strategy, test);
+    ctx.prop_stage("hvar", Isolation::Threads, ctx.n(1_200, 12_000), hvar_strategy, test);
     ctx.prop_stage("everything", Isolation::Threads, ctx.n(800, 6_000), everything_strategy, test);
     ctx.index_stage("kf", Isolation::Threads, KF_CASES, kf_case, test_kf);
     ctx.finish();
